@@ -2075,6 +2075,14 @@ def _expand_star(x: Term) -> Optional[List[Term]]:
 
 
 def _bind_params(callee: FuncInfo, recv: Optional[Term], args: Tuple[Term, ...], kws: Tuple[Tuple[str, Term], ...]) -> Optional[Dict[Term, Term]]:
+    passthrough: Optional[Term] = None
+    if args and args[-1][0] == "star" and not isinstance(callee.node, ast.Lambda) and is_new_helper(callee) and _expand_star(args[-1][1]) is None \
+            and callee.node.args.vararg is not None and not any(a[0] == "star" for a in args[:-1]):
+        # `f(a, b, *rest)` into `def f(x, y, *more)`: the surplus arguments are handed on as they are
+        npos = len(callee.node.args.posonlyargs + callee.node.args.args) - (1 if recv is not None else 0)
+        if len(args) - 1 == npos:
+            passthrough = args[-1][1]
+            args = args[:-1]
     if any(a[0] == "star" for a in args):
         flat: List[Term] = []
         for a in args:
@@ -2104,7 +2112,7 @@ def _bind_params(callee: FuncInfo, recv: Optional[Term], args: Tuple[Term, ...],
     kwonly = [x.arg for x in a.kwonlyargs]
     if a.vararg is not None:
         # `*rest` is the tuple of the surplus positional arguments
-        mapping[T.var(a.vararg.arg)] = ("tuple", tuple(args[len(pos):]))
+        mapping[T.var(a.vararg.arg)] = passthrough if passthrough is not None else ("tuple", tuple(args[len(pos):]))
         args = args[:len(pos)]
     if len(args) > len(pos):
         return None
